@@ -234,13 +234,29 @@ fn deviate<G: CurveTag>(ch: &mut Choices, prog: &Program, commitments: &[G], pm:
                     matches!(&ops[*i], Op::Constrain { lc, .. } if lc.iter().any(|(v, _)| matches!(v, Var::Com(_))))
                 })
                 .collect();
-            let pool = if !over_com.is_empty() && ch.chance(200) { &over_com } else { &sites };
+            // constraints over committed values that were spelled before the commitments existed
+            let fwd_com: Vec<(ListRef, usize)> = over_com
+                .iter()
+                .copied()
+                .filter(|(l, i)| {
+                    let ops: &Vec<Op> = match l {
+                        None => &p.ops,
+                        Some(k) => match &p.ops[*k] {
+                            Op::Closure(b) => b,
+                            _ => unreachable!(),
+                        },
+                    };
+                    crate::program::is_forward(&ops[*i])
+                })
+                .collect();
+            let forced = !fwd_com.is_empty() && ch.chance(150);
+            let pool = if forced { &fwd_com } else if !over_com.is_empty() && ch.chance(200) { &over_com } else { &sites };
             let site = pool[ch.below(pool.len())];
             let d = ScalarSpec::gen_nonzero(ch);
             let mut what = "constant";
             if let Op::Constrain { lc, err, base } = &mut list_mut(&mut p, site.0)[site.1] {
                 let com_terms: Vec<usize> = lc.iter().enumerate().filter(|(_, (v, _))| matches!(v, Var::Com(_))).map(|(i, _)| i).collect();
-                if !com_terms.is_empty() && ch.chance(150) {
+                if !com_terms.is_empty() && (forced || ch.chance(150)) {
                     // coefficient on a committed value: the constant stays what it was
                     if base.is_none() {
                         *base = Some(lc.clone());
